@@ -36,7 +36,7 @@ from vf.sautil import Capture, mem_engine
 PROPERTY = "C17"
 LEVEL = "exploration"
 RULE = (
-    "histories of 5-40 invocations over 31 lambda sites defined in checks/c17.py (lambda_stmt, += links chosen outside the lambda, add_criteria with track_on / "
+    "histories of 5-40 invocations over 34 lambda sites defined in checks/c17.py (lambda_stmt, += links chosen outside the lambda, add_criteria with track_on / "
     "track_closure_variables=False, lambda in where(), with_loader_criteria(lambda), ORM lambda_stmt through Session, UPDATE/DELETE/INSERT lambdas, module global, "
     "explicit lambda_cache, documented-error shapes), closure values drawn per invocation: tagged ints/strings, IN lists of length 0-4, column / table choice, object "
     "attributes, optional-link choice. Non-trivial: some site is invoked >=2 times with different scalar values and >=1 structural change (column, table, list length, "
@@ -47,6 +47,9 @@ ASSUMPTIONS = [
     "conditionals live outside the lambdas (documented 'do this'); values needed by a lambda are closure variables, not default arguments or function results",
     "the process-global caches of the lambda system (AnalyzedCode._fns, _closure_per_cache_key) are cleared at the start of each case so that cases are independent",
     "the reference statement runs on a second engine (cache disabled) over identical data; DML histories evolve identically on both",
+    "the options of a lambda (track_on, track_bound_values, track_closure_variables, enable_tracking) are a property of its code site: one drawn option set per link code and "
+    "history, only options that are sound for that link (tracking switched off only on links that close over no varying value; track_on always names the closure table)",
+    "the same lambda code with the same column closure embedded twice in one non-linked select is kept out of generated histories (known finding, pinned)",
     "a None closure value compared with == / != is kept out of the generated histories (known finding: rendered '= NULL' instead of 'IS NULL') and pinned",
 ]
 
@@ -80,6 +83,13 @@ class P:
         self.obj = _Obj(self.v1, self.v2)
         self.cache = cache
         self.none = bool(d.get("none"))
+        self.same = bool(d.get("same"))
+        # options belong to a lambda *site* (code object): one drawn option set per link code and history, never per use
+        # (the lambda system analyses a code object once, with the options of its first use)
+        self.lo = list(d.get("lo", [0] * 12))
+        self.chain = [x[0] if isinstance(x, list) else x for x in d.get("chain", [0, 4])]
+        self.s_at = lambda j: G.str_token(d["s"] + j, tag(3)) + "abc"[j % 3]  # noqa: E731
+        self.lst_at = lambda j: [x + j for x in self.lst]  # noqa: E731
 
 
 # ------------------------------------------------------------------ the lambda sites
@@ -430,6 +440,146 @@ def s_loader_criteria_entity(p):
     )
 
 
+# ---- multi-link statements with per-link options.  The link lambdas are real code; values arrive as closure cells.
+def _f_gt(v):
+    return lambda q: q.where(ta.c.x > v)
+
+
+def _f_in(lst):
+    return lambda q: q.where(ta.c.y.in_(lst))
+
+
+def _f_ne(s):
+    return lambda q: q.where(ta.c.s != s)
+
+
+def _f_le(w):
+    return lambda q: q.where(ta.c.id <= w)
+
+
+def _f_order():
+    return lambda q: q.order_by(ta.c.id)
+
+
+def _f_const():
+    return lambda q: q.where(ta.c.id > 0)
+
+
+def _t_gt(t, v):
+    return lambda q: q.where(t.c.id > v)
+
+
+def _t_ne(t, s):
+    return lambda q: q.where(t.c.s != s)
+
+
+def _t_in(t, lst):
+    return lambda q: q.where(t.c.id.not_in(lst))
+
+
+def _t_order(t):
+    return lambda q: q.order_by(t.c.id)
+
+
+# options a link may legitimately carry (documented per lambda): a link that closes over no varying value may switch
+# bound-value tracking (or all tracking) off; that must not affect the other links
+_OPT_VALUE = [{}, {"track_closure_variables": False}, {}, {}]
+_OPT_FREE = [{}, {"track_bound_values": False}, {"enable_tracking": False}, {"track_closure_variables": False}]
+
+
+def _chain(first_fn, first_opts, links):
+    """links: [(fn, opts)].  Returns (build_lambda_statement, build_plain_statement)"""
+
+    def lam():
+        st_ = lambda_stmt(first_fn, **first_opts)
+        for fn, opts in links:
+            st_ = st_.add_criteria(fn, **opts) if opts else st_ + fn
+        return st_
+
+    def plain():
+        q = first_fn()
+        for fn, _ in links:
+            q = fn(q)  # the link function applied directly: no LambdaElement involved
+        return q
+
+    return lam, plain
+
+
+def _chain_flags(p, first_opts, links, spec):
+    free_off = lambda o: o.get("track_bound_values") is False or o.get("enable_tracking") is False  # noqa: E731
+    off_then_value = False
+    prev_off = free_off(first_opts)
+    for (fn, opts), (kind, _) in zip(links, spec):
+        if prev_off and kind in ("gt", "in", "ne", "le"):
+            off_then_value = True
+        prev_off = free_off(opts)
+    return {"struct": ("chain", tuple(sorted(first_opts)), tuple((k, tuple(sorted(o))) for (_, o), (k, _) in zip(links, spec))),
+            "chain": True, "chain_off_then_value": off_then_value,
+            "chain_nondefault": bool(first_opts) or any(o for _, o in links)}
+
+
+def s_chain_fixed(p):
+    """2-4 links over the fixed table ta, each link with its own drawn (sound) options"""
+    first_opts = _OPT_FREE[p.lo[0] % 4]
+    links, spec = [], []
+    for j, kind in enumerate(p.chain[:3]):
+        k = ["gt", "in", "ne", "le", "order", "const"][kind % 6]
+        opt = p.lo[1 + kind % 6]
+        v = [p.v1, p.v2, p.v3][j % 3]
+        fn = {"gt": lambda: _f_gt(v), "in": lambda: _f_in(p.lst_at(j)), "ne": lambda: _f_ne(p.s_at(j)), "le": lambda: _f_le(v),
+              "order": _f_order, "const": _f_const}[k]()
+        opts = (_OPT_FREE if k in ("order", "const") else _OPT_VALUE)[opt % 4]
+        links.append((fn, opts))
+        spec.append((k, opt % 4))
+    if not any(k == "order" for k, _ in spec):
+        links.append((_f_order(), _OPT_FREE[p.lo[5] % 4]))
+        spec.append(("order", p.lo[5] % 4))
+    lam, plain = _chain(lambda: select(ta.c.id, ta.c.x), first_opts, links)
+    return lam, plain, _chain_flags(p, first_opts, links, spec)
+
+
+def s_chain_table(p):
+    """2-4 links closing over a drawn table: default tracking or track_on=[t] with the correct key"""
+    t = p.tbl
+    first_opts = [{}, {"track_on": [t]}, {"track_bound_values": False}, {"track_on": [t], "track_bound_values": False}][p.lo[7] % 4]
+    links, spec = [], []
+    for j, kind in enumerate(p.chain[:3]):
+        k = ["gt", "ne", "in", "order"][kind % 4]
+        opt = p.lo[8 + kind % 4]
+        v = [p.v1, p.v2, p.v3][j % 3]
+        fn = {"gt": lambda: _t_gt(t, v), "ne": lambda: _t_ne(t, p.s_at(j)), "in": lambda: _t_in(t, p.lst_at(j)), "order": lambda: _t_order(t)}[k]()
+        if k == "order":
+            opts = [{}, {"track_on": [t]}, {"track_bound_values": False}, {"track_on": [t], "track_bound_values": False}][opt % 4]
+        else:
+            opts = [{}, {"track_on": [t]}, {}, {"track_on": [t]}][opt % 4]
+        links.append((fn, opts))
+        spec.append((k, opt % 4))
+    if not any(k == "order" for k, _ in spec):
+        links.append((_t_order(t), [{}, {"track_on": [t]}, {"track_bound_values": False}, {"track_on": [t], "track_bound_values": False}][p.lo[11] % 4]))
+        spec.append(("order", p.lo[11] % 4))
+    lam, plain = _chain(lambda: select(t.c.id, t.c.s), first_opts, links)
+    fl = _chain_flags(p, first_opts, links, spec)
+    fl["struct"] = fl["struct"] + (t.name,)
+    return lam, plain, fl
+
+
+def _crit_gt(col, v):
+    return lambda: col > v
+
+
+def s_same_code_twice(p):
+    """the same lambda code embedded twice in one (non-linked) select.  With the same column in both it is a
+    known finding (pinned only); generated histories use two different columns"""
+    c1 = p.col
+    c2 = c1 if p.same else ta.c[{"x": "y", "y": "id", "id": "x"}[c1.name]]
+    v, w = p.v1, p.v2
+    return (
+        lambda: select(ta.c.id).where(_crit_gt(c1, v)).where(_crit_gt(c2, w)).order_by(ta.c.id),
+        lambda: select(ta.c.id).where(c1 > v).where(c2 > w).order_by(ta.c.id),
+        {"same_twice": p.same, "struct": ("cols", c1.name)},
+    )
+
+
 def s_none_eq(p):
     """known finding (pinned only): a None closure value compared with =="""
     v = None if p.none else p.v1
@@ -444,8 +594,11 @@ SITES = [
     s_scalar, s_two_scalars_string, s_links, s_in_list, s_not_in_list_link, s_column, s_column_link, s_table, s_table_link_count,
     s_where_lambda, s_where_lambda_column, s_global, s_track_on, s_obj_notrack, s_add_criteria_track_on, s_lambda_cache, s_limit_offset,
     s_closure_expr, s_closure_expr_link, s_expr_list, s_obj_attr, s_func_call, s_update, s_delete, s_insert, s_orm_links, s_orm_entity, s_orm_where_lambda, s_loader_criteria,
-    s_loader_criteria_entity, s_none_eq,
+    s_loader_criteria_entity, s_none_eq, s_same_code_twice,
+    # multi-link chains with per-link options carry extra weight
+    s_chain_fixed, s_chain_table, s_chain_fixed, s_chain_table, s_chain_fixed,
 ]
+SAME_SITE = SITES.index(s_same_code_twice)
 NONE_SITE = SITES.index(s_none_eq)
 
 
@@ -522,6 +675,10 @@ def check_history(case, ctx):
                 if si == NONE_SITE:
                     ctx.exclude("None closure value compared with == replaced by an int (known finding C17/none-closure/eq-renders-bound-null)")
                 p_.none = False
+            if p_.same and not pinned:
+                if si == SAME_SITE:
+                    ctx.exclude("same lambda code + same column embedded twice in one select replaced by two different columns (known finding C17/same-lambda-code-twice/bound-values-collide)")
+                p_.same = False
             invs.append((i, si, p_))
         # classification before running
         structural = False
@@ -536,6 +693,12 @@ def check_history(case, ctx):
                 if pstruct != flags.get("struct"):
                     structural = True
             seen.append(((p.v1, p.v2), flags.get("struct")))
+            if flags.get("chain"):
+                classes.add("chain")
+                if flags["chain_nondefault"]:
+                    classes.add("chain:per-link-options")
+                if flags["chain_off_then_value"] and len([1 for (_, ps) in seen if ps == flags.get("struct")]) >= 2:
+                    classes.add("chain:tracking-off-link-then-value-link-repeated")
         repeated = [si for si, v in per_site.items() if len(v) >= 2]
         if repeated:
             classes.add("site-repeated")
@@ -564,6 +727,12 @@ def check_history(case, ctx):
                     )
                 if doc:
                     ctx.info("documented_error_shape_ran_" + name)
+                if flags.get("same_twice") and (sql_l != sql_p or got != want):
+                    raise Violation(
+                        "C17/same-lambda-code-twice/bound-values-collide",
+                        f"invocation {i}: the same lambda code with the same column closure embedded twice in one select: both criteria get the bound value of the last one",
+                        observed=(sql_l, got), expected=(sql_p, want),
+                    )
                 if flags.get("none") and (sql_l != sql_p or got != want):
                     raise Violation(
                         "C17/none-closure/eq-renders-bound-null",
@@ -616,6 +785,15 @@ _inv = st.fixed_dictionaries(
         "t": st.integers(0, 2),
         "k": st.integers(0, 7),
         "none": st.sampled_from([0, 0, 0, 1]),
+        "same": st.sampled_from([0, 0, 0, 1]),
+    }
+)
+
+
+_pool_entry = st.fixed_dictionaries(
+    {
+        "site": st.integers(0, 200),
+        "chain": st.lists(st.integers(0, 5), min_size=1, max_size=3),
     }
 )
 
@@ -623,12 +801,14 @@ _inv = st.fixed_dictionaries(
 @st.composite
 def _histories(draw):
     # a small pool of sites per history so that sites recur and share the caches
-    pool = draw(st.lists(st.integers(0, 200), min_size=1, max_size=5))
+    pool = draw(st.lists(_pool_entry, min_size=1, max_size=5))
+    lo = draw(st.lists(st.integers(0, 3), min_size=12, max_size=12))  # per-history option set of every link code
     n = draw(st.integers(5, 40))
     invs = []
     for _ in range(n):
         inv = draw(_inv)
-        inv["site"] = pool[draw(st.integers(0, len(pool) - 1))]
+        inv.update(pool[draw(st.integers(0, len(pool) - 1))])  # site + link chain are fixed per pool entry
+        inv["lo"] = lo
         invs.append(inv)
     return {"data": draw(G.data_strategy), "invs": invs}
 
